@@ -57,6 +57,21 @@ env_fail_now(void) {
 #else
 #define env_fail_now() 0
 #endif
+#ifndef VERIF_REPLAY
+/* allocation sizes, so that the realloc model below copies a concrete number of bytes */
+#define ENV_ALLOC_SLOTS 24
+static void *env_alloc_ptr[ENV_ALLOC_SLOTS];
+static size_t env_alloc_size[ENV_ALLOC_SLOTS];
+static unsigned env_alloc_n;
+static void
+env_alloc_note(void *p, size_t size) {
+  if (env_alloc_n < ENV_ALLOC_SLOTS) {
+    env_alloc_ptr[env_alloc_n] = p;
+    env_alloc_size[env_alloc_n] = size;
+    env_alloc_n++;
+  }
+}
+#endif
 void *
 coap_malloc_type(coap_memory_tag_t type, size_t size) {
   (void)type;
@@ -64,6 +79,7 @@ coap_malloc_type(coap_memory_tag_t type, size_t size) {
   void *p = malloc(size);
 #ifndef VERIF_REPLAY
   __CPROVER_assume(p != NULL);
+  env_alloc_note(p, size);
 #endif
   return p;
 }
@@ -71,11 +87,28 @@ void *
 coap_realloc_type(coap_memory_tag_t type, void *p, size_t size) {
   (void)type;
   if (env_fail_now()) return NULL;
-  void *q = realloc(p, size);
-#ifndef VERIF_REPLAY
+#ifdef VERIF_REPLAY
+  return realloc(p, size);
+#else
+  /* CBMC's realloc model copies with __CPROVER_array_copy, which loses byte-level (field-sensitive) knowledge of
+   * the buffer; an explicit malloc + byte copy + free keeps concrete header bytes concrete */
+  void *q = malloc(size);
   __CPROVER_assume(q != NULL);
-#endif
+  if (p) {
+    size_t old = 0, n, i;
+    unsigned k;
+    int found = 0;
+    for (k = 0; k < ENV_ALLOC_SLOTS; k++)
+      if (k < env_alloc_n && env_alloc_ptr[k] == p) { old = env_alloc_size[k]; found = 1; }
+    __CPROVER_assert(found, "env: realloc of a block that came from coap_malloc_type/coap_realloc_type");
+    n = old < size ? old : size;
+    /* byte loop with a concrete bound (unwindset coap_realloc_type.1): constant-index copies stay field-sensitive */
+    for (i = 0; i < n; i++) ((uint8_t *)q)[i] = ((const uint8_t *)p)[i];
+    free(p);
+  }
+  env_alloc_note(q, size);
   return q;
+#endif
 }
 void
 coap_free_type(coap_memory_tag_t type, void *p) {
